@@ -187,7 +187,13 @@ def inj_dup_ref(rng, d, forms=None):
 
 def inj_empty_table(rng, d):
     t = am.Table(rng.choice(['public', 'sx']), f'tempty{rng.randrange(10**6)}')
-    how = rng.choice(['bare', 'note', 'alias', 'settings'])
+    how = rng.choice(['bare', 'note', 'alias', 'settings', 'props', 'props+note'])
+    if how.startswith('props'):
+        # a body that holds only custom properties (option on): still a table without columns
+        t.props = [(f'pk{rng.randrange(10**6)}', 'x')] + ([('owner', 'y')] if rng.random() < 0.5 else [])
+        d.allow_properties = True
+        if how == 'props+note':
+            t.note = 'only a note'
     if how == 'settings':
         t.header_color = '#abc'
     if how == 'note':
@@ -196,7 +202,8 @@ def inj_empty_table(rng, d):
         t.alias = f'ale{rng.randrange(10**6)}'
     d.tables.append(t)
     _pos(rng, d, ('t', len(d.tables) - 1))
-    return SYN, {'how': how}
+    # a quoted property name first in the body is a plain grammar failure (still a rejection): both classes belong to the rule there
+    return (SYN + '|ParseSyntaxException' if how.startswith('props') else SYN), {'how': how}
 
 
 def _ghost(d, rng):
@@ -379,7 +386,7 @@ def run_shard(spec, tier, seed, budget_s):
                 sh.case(text, nontrivial=len(host.tables) > 1 or bool(host.refs),
                         sample={'rule': rule, 'expect': want, 'features': feats, 'text': text[:1000]})
                 sh.count('obs.cases.' + rule)
-                props = rng.random() < 0.4          # the rules do not depend on the option
+                props = rng.random() < 0.4 or str(feats.get('how', '')).startswith('props')          # the rules do not depend on the option
                 db, err = parse(text, allow_properties=props)
                 sh.count('obs.option.' + ('on' if props else 'off'))
                 case = {'kind': 'reject', 'text': text, 'expect': want, 'rule': rule, 'props': props}
@@ -389,7 +396,7 @@ def run_shard(spec, tier, seed, budget_s):
                 else:
                     cls, where = monitors.classify_exc(err)
                     sh.count(f'obs.raised.{cls}@{where}')
-                    if cls != want:
+                    if cls not in want.split('|'):
                         sh.violation('class', f'wrong-error:{sub}:{cls}', f'rule {rule}: raised {cls} ({err}) at {where}, expected {want}',
                                      case, feats)
                     else:
@@ -414,6 +421,6 @@ def replay(v):
     db, err = parse(case['text'], allow_properties=case.get('props', False))
     if err is None:
         sh.violation('accept', v['klass'], 'document is (still) accepted', case, v.get('features'))
-    elif type(err).__name__ != case['expect']:
+    elif type(err).__name__ not in case['expect'].split('|'):
         sh.violation('class', v['klass'], f'raises {type(err).__name__}: {err}; expected {case["expect"]}', case, v.get('features'))
     return sh.violations
